@@ -4,7 +4,7 @@
   1. demo passes on the clean tree, 2. patch applies and byte-compiles, 3. demo fails with the patch,
   4. the existing suite (or the given test files) has no test that passed in the baseline and fails now.
 
-usage: confirm_seed.py <ID> <k> [--full | tests/test_a.py tests/test_b.py ...]
+usage: confirm_seed.py <ID> <k> [--src DIR] [--tag r2] [--full | tests/test_a.py tests/test_b.py ...]
 Writes /tmp/wt/confirm/<ID>_<k>.json ; removes the scratch worktree afterwards.
 """
 import json
@@ -27,18 +27,28 @@ def sh(cmd, cwd, env=None, timeout=7200):
 def main():
     pid, k = sys.argv[1], sys.argv[2]
     rest = sys.argv[3:]
-    src = Path(f"/tmp/wt/out/{pid}")
+    tag = ""
+    srcroot = "/tmp/wt/out"
+    if "--src" in rest:
+        i = rest.index("--src")
+        srcroot = rest[i + 1]
+        del rest[i:i + 2]
+    if "--tag" in rest:
+        i = rest.index("--tag")
+        tag = rest[i + 1] + "_"
+        del rest[i:i + 2]
+    src = Path(srcroot) / pid
     patch, demo = src / f"patch{k}.diff", src / f"demo{k}.py"
     OUT.mkdir(parents=True, exist_ok=True)
     res = {"property": pid, "k": k, "patch": str(patch), "demo": str(demo), "started": time.strftime("%H:%M:%S")}
-    wt = Path(f"/tmp/wtc/{pid}_{k}")
+    wt = Path(f"/tmp/wtc/{tag}{pid}_{k}")
     if wt.exists():
         sh(["git", "-C", "/repo", "worktree", "remove", "--force", str(wt)], "/")
     wt.parent.mkdir(parents=True, exist_ok=True)
     r = sh(["git", "-C", "/repo", "worktree", "add", "-q", "--detach", str(wt), "HEAD"], "/")
     if r.returncode:
         res["error"] = "worktree: " + r.stderr
-        (OUT / f"{pid}_{k}.json").write_text(json.dumps(res, indent=1))
+        (OUT / f"{tag}{pid}_{k}.json").write_text(json.dumps(res, indent=1))
         return 2
     try:
         shutil.copy("/repo/src/pyhf/_version.py", wt / "src/pyhf/_version.py")
@@ -58,7 +68,7 @@ def main():
         res["demo_patched_rc"] = d1.returncode
         res["demo_patched_tail"] = (d1.stdout + d1.stderr)[-600:]
         tests = [] if (not rest or rest == ["--full"]) else rest
-        junit = OUT / f"{pid}_{k}.junit.xml"
+        junit = OUT / f"{tag}{pid}_{k}.junit.xml"
         cmd = [PY, "-m", "pytest", "-q", "-p", "no:cacheprovider", "--timeout=900", "--continue-on-collection-errors", f"--junitxml={junit}"] + tests
         t0 = time.time()
         t = sh(cmd, wt, env, timeout=3 * 3600)
@@ -85,7 +95,7 @@ def main():
         return 0
     finally:
         res["finished"] = time.strftime("%H:%M:%S")
-        (OUT / f"{pid}_{k}.json").write_text(json.dumps(res, indent=1))
+        (OUT / f"{tag}{pid}_{k}.json").write_text(json.dumps(res, indent=1))
         sh(["git", "-C", "/repo", "worktree", "remove", "--force", str(wt)], "/")
         shutil.rmtree(wt, ignore_errors=True)
 
